@@ -75,6 +75,11 @@ type c19xVerdict struct {
 	InScope       bool     `json:"inScope"`
 	SkippedBefore []string `json:"skippedBefore"`
 	SkippedAfter  []string `json:"skippedAfter"`
+	CbCopiesOut   int      `json:"cbCopiesOut"` // callback-copy ledger of one node, output timing
+	CbHandedOut   int      `json:"cbHandedOut"`
+	CbCopiesIn    int      `json:"cbCopiesIn"`
+	CbHandedIn    int      `json:"cbHandedIn"`
+	CbLeaked      int      `json:"cbLeaked"`
 }
 
 // c19xBuild builds the workflow; branchRun is closed when B's branch condition has run,
@@ -175,11 +180,7 @@ func c19xShape(c *c19xCase, model *c19xVerdict) string {
 	case len(model.SkippedBefore) > 0:
 		class = "copy-sent-to-skipped"
 	}
-	sfx := ""
-	if len(c.Handlers) > 0 {
-		sfx += ":callbacks"
-	}
-	return c.Order + ":" + class + sfx
+	return c.Order + ":" + class + c19CbSfx(c.Handlers)
 }
 
 func c19xOne(ctx *vh.Ctx, c *c19xCase) error {
@@ -225,7 +226,9 @@ func c19xOne(ctx *vh.Ctx, c *c19xCase) error {
 			var sr *schema.StreamReader[gcase.M]
 			var ropts []compose.Option
 			if len(c.Handlers) > 0 {
-				ropts = append(ropts, compose.WithCallbacks(c19Handlers(c.Handlers)...))
+				hopts, hdone := c19RunOpts(c.Handlers)
+				defer hdone()
+				ropts = append(ropts, hopts...)
 			}
 			if c.Paradigm == "transform" {
 				sr, runErr = r.Transform(bg, schema.StreamReaderFromArray(gcase.ChunkMap(c.InChunks, x)), ropts...)
